@@ -192,6 +192,21 @@ func (x *Exec) applyContract(st *State, fr *Frame, con *Contract, key string, na
 		x.oblige(st, name, "requires", x.tagsOr(rq.Tags, fr), t, x.posOf(site.Pos()), "precondition of "+key+": "+rq.Text)
 		st.assume(t)
 	}
+	for _, nc := range con.NeedsClean {
+		if pv, ok := vars[nc.Callee]; ok && pv.K == KPtr {
+			goal := "true"
+			if st.stale[pv.T] {
+				goal = "false"
+			}
+			x.oblige(st, x.instrName(fr, site, "call")+".clean("+key+"."+nc.Callee+")", "stale", x.tagsOr(nc.Tags, fr), goal, x.posOf(site.Pos()),
+				"the memory passed as "+nc.Callee+" to "+key+" holds no contents left over from earlier use (pool / scratch buffer cleared first)")
+		}
+	}
+	for _, cl := range con.Cleans {
+		if pv, ok := vars[cl]; ok && pv.K == KPtr && st.stale != nil {
+			delete(st.stale, pv.T)
+		}
+	}
 	env.prove = false
 	if con.AllocSite != nil {
 		if n, err := env.evalAny(con.AllocSite.Expr); err == nil {
@@ -278,6 +293,20 @@ func (x *Exec) applyContract(st *State, fr *Frame, con *Contract, key string, na
 	for _, f := range con.Fresh {
 		if v, ok := vars[f]; ok && v.K == KPtr {
 			x.bumpFresh(st, v)
+		}
+	}
+	for _, sn := range con.Stale {
+		if v, ok := vars[sn]; ok {
+			var ls []V
+			leaves(v, &ls)
+			if st.stale == nil {
+				st.stale = map[string]bool{}
+			}
+			for _, l := range ls {
+				if l.K == KPtr {
+					st.stale[l.T] = true
+				}
+			}
 		}
 	}
 	for _, en := range con.Ensures {
